@@ -430,6 +430,12 @@ func (fr *Frame) backEdge(b, h *ssa.BasicBlock, li *loopInfo, st *State) {
 	if e.dry > 0 {
 		return
 	}
+	if fr.isTop {
+		// vacuity guard: an iteration of the loop can complete under the assumed invariants
+		if vo := e.oblige("vacuity", fmt.Sprintf("loop%d body can complete (block %d)", li.ord, b.Index), "true", st.pc, nil, blockPos(h), ""); vo != nil {
+			vo.Expect = "sat"
+		}
+	}
 	if ls == nil {
 		fr.backEdgeFrames(h, li, st)
 		return
@@ -1082,8 +1088,10 @@ func (fr *Frame) unop(v *ssa.UnOp, st *State) {
 		nxt := e.next(st)
 		if loc := fr.ptrLoc(x); loc != nil && loc.Comp != "" {
 			// a value read from the entry version of a component existed at function entry
-			if cur, ok := st.heap[loc.Comp]; !ok || cur == loc.Comp+"!0" {
-				nxt = "$next!0"
+			if cur, ok := st.heap[loc.Comp]; (!ok || cur == loc.Comp+"!0") && loc.Base != "" {
+				// ... provided the containing object itself existed at entry (contracts describe the
+				// contents of objects allocated by a callee through the same component)
+				nxt = "(ite (and (< 0 " + loc.Base + ") (< " + loc.Base + " $next!0)) $next!0 " + nxt + ")"
 			}
 		}
 		if x.Loc != nil && x.Loc.Kind == locGlobal {
